@@ -235,6 +235,31 @@ def index_grid():
     return out
 
 
+def switch_grid():
+    """Deterministic cases with a `ChoiceMap.switch` (concrete and traced index) as the left and as the
+    right operand of `|`, the other operand defining some of the same addresses: the union must stay
+    left-biased whichever side the switch is on (`Or.build` has a separate code path for each)."""
+    e = lambda v, *comps: ["entry", ["val", v], ["a"] + list(comps), 0]
+    kw = lambda a, b: ["kw", [[["a", "x"], ["val", a]], [["a", "y"], ["val", b]]], 0]
+    plain = [e(1, "x"), e(2, "y"), kw(3, 4), e(5, "x", "y"), ["entry", ["mval", "dT", 6], ["a", "x"], 0],
+             ["entry", ["mval", "dF", 7], ["a", "x"], 0]]
+    out = []
+    for kind in ("c", "d"):
+        for i in (0, 1):
+            for br in ([e(10, "x"), e(11, "x")], [kw(12, 13), e(14, "y")], [e(15, "x", "y"), kw(16, 17)],
+                       [e(18, "z"), "empty"]):
+                sw = ["switch", [kind, i], br]
+                out.append(sw)
+                for q in plain:
+                    out.append(["or", q, sw, 0])
+                    out.append(["or", sw, q, 0])
+                    out.append(["filterchm", q, sw, 0])
+                out.append(["or", sw, ["switch", [kind, 1 - i], list(reversed(br))], 0])
+                out.append(["mask", ["or", plain[2], sw, 0], "dT"])
+                out.append(["sub", ["or", plain[3], sw, 0], ["p", "x"], 0])
+    return out
+
+
 def known_finding_cases():
     return [
         ["entry", ["val", 5], ["a", "x", ["c", 2]], 1],
@@ -255,6 +280,7 @@ def run(ctx: Ctx):
     base, d1 = small_space()
     work += [("exhaustive-depth1", t) for t in d1]
     work += [("index-grid", t) for t in index_grid()]
+    work += [("switch-grid", t) for t in switch_grid()]
     if ctx.tier == "thorough":
         for a in d1[:: 3]:
             for b in base:
